@@ -3,9 +3,7 @@
 A *history* is a list of external stimuli applied to a real aiohttp.ClientSession (real
 TCPConnector: pool, shared DNS lookup, ceil_timeout around connect / sock_connect; real
 ResponseHandler sock_read timer; real TimeoutHandle/TimerContext) living on a virtual-time loop
-with an in-memory origin.  Time is counted in ticks of 1/16 s (exact in binary floating point);
-timeouts and start offsets are multiples of 2 ticks and stimuli happen at odd ticks, so a
-stimulus never ties with a timer.
+with an in-memory origin.  Time is counted in ticks of 1/16 s (exact in binary floating point).
 
   ["adv", d]            let d ticks pass (every timer that becomes due fires, in order)
   ["start", t, cfg]     create the task of request t;  cfg = {"total","connect","sock_connect",
@@ -22,30 +20,65 @@ stimulus never ties with a timer.
 After every stimulus the loop runs until nothing is ready (quiescence) and an abstract snapshot of
 the whole system is taken and compared with the extracted model (coq/Model/Timeouts.v); the
 model-independent property oracle is evaluated on the implementation snapshot.
+Two further suites evaluate the oracle only: a stall after every byte offset of the response
+(mid-line, mid-chunk) for each timer, and task.cancel() before every single event-loop iteration of
+complete exchanges (every point at which the caller's task can be cancelled).
 Instrumentation is harness-side only (resolver object, patched aiohappyeyeballs.start_connection,
-loop.create_connection override); /repo is not edited.
+loop.create_connection override, Connection subclass); /repo is not edited.
 """
 from __future__ import annotations
 
 import asyncio
-import json
-import os
 import glob
+import json
+import math
+import os
 from unittest import mock
 
 from harness.common import framework as fw
 
 PROP = "C18"
-GENERATED = ["TimeoutsGen.v"]
+GENERATED = ["TimeoutsGen.v", "PoolGen.v"]
+RULE = ("suite histories: stimulus histories (start/dns/conn/written/data/read/cancel/adv) over <= 4 requests sharing "
+        "one pool (limit 0/1/2) and one DNS lookup, timeouts total/connect/sock_connect/sock_read below and above the "
+        "ceil threshold, start offsets inside the second, generated from one PRNG seeded by VERIF_SEED by looking at "
+        "which stimuli the implementation can currently take (plus the corpus); each history runs on the real "
+        "ClientSession under virtual time, the abstract snapshot after EVERY stimulus (clock, pool occupancy, open "
+        "transports, writer tasks, lookup, armed timer deadlines, per-request outcome and failure time) is compared "
+        "with the extracted model, and the oracle (bound, residue, isolation, follow-up request) is evaluated on the "
+        "implementation.  suite stall_sweep: the response stalls after every byte offset x timer x below/above the "
+        "threshold.  suite cancel_sweep: task.cancel() before every loop iteration of complete exchanges.  "
+        "Non-trivial = at least one request ended by timeout or cancellation; distinct by hash of the history and "
+        "its final implementation snapshot.")
+TRUSTED = [
+    "translator/gen_timeouts.py (TimeoutHandle.start / ceil_timeout / _reschedule_timeout statement translation; "
+    "ClientTimeout.__post_init__; ast shape checks of TimerContext, of the ResponseHandler timer methods and of the "
+    "wiring in _request, _connect_and_send_request, BaseConnector.connect, _wrap_create_connection) and "
+    "translator/gen_pool.py (capacity formula)",
+    "extraction: ExtrOcamlBasic only; ocaml/common/conv.ml + ocaml/C18/driver.ml (event parsing, snapshot printing)",
+    "correspondence harness harness/c18.py (virtual-time loop, in-memory transport, scripted resolver / socket connect / "
+    "origin): sampled, not proved",
+    "modelled, not verified: asyncio tasks, futures, call_at/call_later, asyncio.timeout, task.cancel/uncancel; the HTTP "
+    "parser and StreamReader are represented by the four abstract data kinds; time is virtual",
+]
+ASSUMPTIONS = [
+    "One origin (one connection key, one DNS name, one address), limit_per_host unset, no proxy/TLS, traces=[]; idle "
+    "pooled connections stay connected (no peer close, keep-alive never expires during a history).",
+    "Configured timeouts are non-negative; the peer never sends the end of the body before the caller reads, and sends "
+    "nothing while reading is paused or after a sock_read timeout has been latched.",
+    "The await points at which cancellation is tried are the event-loop iteration boundaries of the real loop "
+    "(instrumentation), not an enumeration proved complete.",
+    "Model/implementation agreement is validated on the generated histories only.",
+]
+
 TPS = 16                      # ticks per second
-T0 = 1000.0                   # VLoop start time (whole second)
+T0 = 1000.0                   # VLoop start time (a whole second)
 HEAD = b"HTTP/1.1 200 OK\r\nContent-Type: text/plain\r\nTransfer-Encoding: chunked\r\n\r\n"
 BODY_CHUNKS = [b"a" * 20, b"b" * 600, b"c" * 20]
 READ_BUFSIZE = 64             # StreamReader high-water mark = 128 bytes
-
-
 TIMER_KINDS = {"TimeoutHandle.__call__": "total", "Timeout._on_timeout": "ctx",
                "ResponseHandler._on_read_timeout": "read"}
+TIMEOUT_KINDS = ("total_timeout", "connect_timeout", "sock_read_timeout")
 
 
 def _chunked(parts):
@@ -54,6 +87,11 @@ def _chunked(parts):
 
 BODY = _chunked(BODY_CHUNKS)
 PLAIN = b"".join(BODY_CHUNKS)
+FULL = HEAD + BODY
+
+
+def build_model():
+    return fw.ocaml_model("C18", ["Model/Timeouts.vo"])
 
 
 # --------------------------------------------------------------------------------------------
@@ -73,15 +111,8 @@ class World:
             async def create_connection(self, protocol_factory, *, ssl=None, sock=None, server_hostname=None, **kw):
                 proto = protocol_factory()
                 tr = MemTransport(self, proto)
-                tid = sock.tid
-                tr.tid = tid
                 proto.connection_made(tr)
                 w.transports.append(tr)
-                w.tr_of[tid] = tr
-                w.proto_of[tid] = proto
-                if w.cfg[tid].get("block"):
-                    proto.pause_writing()
-                    w.wpaused[tid] = True
                 return tr, proto
 
         class Resolver(AbstractResolver):
@@ -99,17 +130,13 @@ class World:
             tid = w.tid_of.get(asyncio.current_task())
             fut = w.loop.create_future()
             w.conn_futs[tid] = fut
+            w.sock_started[tid] = w.tick()
             try:
                 await fut
             finally:
                 if w.conn_futs.get(tid) is fut:
                     del w.conn_futs[tid]
-
-            class Sock:
-                pass
-            s = Sock()
-            s.tid = tid
-            return s
+            return object()
 
         class Conn(cmod.Connection):
             def __init__(self, connector, key, protocol, loop):
@@ -118,9 +145,15 @@ class World:
                 if tid is not None and protocol.transport is not None:
                     w.tr_of[tid] = protocol.transport
                     w.proto_of[tid] = protocol
+                    w.conn_obj[tid] = self
+                    w.last_io[tid] = w.tick()
+                    if w.cfg[tid].get("block") and not protocol._paused:
+                        protocol.pause_writing()
+                        w.wpaused[tid] = True
 
         self.loop = Loop()
         self.loop.vtime = T0 + offset / TPS
+        self.offset = offset
         asyncio.set_event_loop(self.loop)
         self.patches = [
             mock.patch.object(cmod, "aiofastnet", None),
@@ -136,8 +169,10 @@ class World:
         self.transports: list = []
         self.tr_of: dict = {}
         self.proto_of: dict = {}
+        self.conn_obj: dict = {}
         self.wpaused: dict = {}
         self.conn_futs: dict = {}
+        self.sock_started: dict = {}
         self.dns_futs: list = []
         self.dns_calls = 0
         self.sent: dict = {}          # t -> bytes of the response delivered so far
@@ -145,7 +180,13 @@ class World:
         self.outcome: dict = {}       # t -> (kind, tick)
         self.head_at: dict = {}
         self.bodies: dict = {}
+        self.started_at: dict = {}
+        self.last_io: dict = {}       # t -> tick of the last socket activity that (re)starts the sock_read period
+        self.cancelled: set = set()
+        self.eff_total: dict = {}
         self.limit = limit
+        self.iter_hook = None         # called before every loop iteration (cancel sweep)
+        self.iterations = 0
 
         async def mk():
             conn = aiohttp.TCPConnector(limit=limit, limit_per_host=0, resolver=Resolver(), use_dns_cache=True,
@@ -158,9 +199,24 @@ class World:
     def tick(self):
         return round((self.loop.vtime - T0) * TPS)
 
-    def settle(self):
-        if not self.loop.run_until_idle():
+    def settle(self, max_iters=20000):
+        loop = self.loop
+        old = loop.auto_advance
+        loop.auto_advance = False
+        try:
+            for _ in range(max_iters):
+                busy = bool(loop._ready) or bool(loop._scheduled and loop._scheduled[0]._when <= loop.vtime)
+                if self.iter_hook is not None and busy:
+                    self.iter_hook(self.iterations)
+                    busy = True
+                loop.call_soon(loop.stop)
+                loop.run_forever()
+                self.iterations += 1
+                if not busy and not loop._ready:
+                    return
             raise RuntimeError("loop does not quiesce")
+        finally:
+            loop.auto_advance = old
 
     def advance(self, d):
         target = self.loop.vtime + d / TPS
@@ -183,7 +239,7 @@ class World:
         tmo = aiohttp.ClientTimeout(total=sec(cfg.get("total")), connect=sec(cfg.get("connect")),
                                     sock_connect=sec(cfg.get("sock_connect")), sock_read=sec(cfg.get("sock_read")),
                                     ceil_threshold=cfg.get("thr", 5 * TPS) / TPS)
-        self.effective_total = tmo.total
+        self.eff_total[t] = None if tmo.total is None else round(tmo.total * TPS)
         body = b"x" * 70000 if cfg.get("block") else None
         try:
             async with self.session.request("POST" if body else "GET", "http://origin.test/p", data=body,
@@ -205,8 +261,11 @@ class World:
             return
         if op == "start":
             t, cfg = st[1], st[2]
+            if t in self.tasks:
+                return
             self.cfg[t] = cfg
             self.gate[t] = asyncio.Event()
+            self.started_at[t] = self.tick()
             task = self.loop.create_task(self._client(t, cfg))
             self.tasks[t] = task
             self.tid_of[task] = t
@@ -221,30 +280,62 @@ class World:
                 f.set_result(None)
         elif op == "written":
             t = st[1]
-            if self.wpaused.get(t):
+            if self.wpaused.get(t) and t in self.tasks and not self.tasks[t].done():
                 self.wpaused[t] = False
                 p = self.proto_of[t]
                 if p._paused:
                     p.resume_writing()
+                    self.last_io[t] = self.tick()
         elif op == "data":
             t, kind = st[1], st[2]
-            tr = self.tr_of.get(t)
-            if tr is not None and not tr.closed and tr.reading:
-                full = HEAD + BODY
-                pos = self.sent.get(t, 0)
-                new = next_cut(pos, kind)
-                if new > pos:
-                    self.sent[t] = new
-                    tr.protocol.data_received(full[pos:new])
+            self.deliver(t, next_cut(self.sent.get(t, 0), kind))
+        elif op == "bytes":                       # stall sweep: deliver up to an absolute offset
+            self.deliver(st[1], st[2])
         elif op == "read":
-            self.gate[st[1]].set()
+            t = st[1]
+            if t in self.gate and not self.gate[t].is_set():
+                self.gate[t].set()
+                if t in self.tasks and not self.tasks[t].done():
+                    self.last_io_on_resume(t)
         elif op == "cancel":
-            self.tasks[st[1]].cancel()
+            t = st[1]
+            if t in self.tasks and not self.tasks[t].done():
+                self.cancelled.add(t)
+                self.tasks[t].cancel()
         else:
             raise ValueError(op)
         self.settle()
 
+    def last_io_on_resume(self, t):
+        tr = self.tr_of.get(t)
+        if tr is not None and not tr.reading:
+            self.last_io[t] = self.tick()
+
+    def deliver(self, t, new):
+        tr = self.tr_of.get(t)
+        if t not in self.tasks or self.tasks[t].done():
+            return
+        if tr is not None and not tr.closed and tr.reading and tr.protocol is not None:
+            pos = self.sent.get(t, 0)
+            if new > pos:
+                self.sent[t] = new
+                self.last_io[t] = self.tick()
+                tr.protocol.data_received(FULL[pos:new])
+
     # -- observation
+    def bg_tasks(self):
+        callers = set(self.tasks.values())
+        return [x for x in asyncio.all_tasks(self.loop)
+                if not x.done() and x not in self.base_tasks and x not in callers]
+
+    def writer_owner(self, task):
+        fr = getattr(task.get_coro(), "cr_frame", None)
+        conn = fr.f_locals.get("conn") if fr is not None else None
+        for t, c in self.conn_obj.items():
+            if c is conn:
+                return t
+        return None
+
     def snapshot(self):
         c = self.connector
         timers = []
@@ -254,27 +345,26 @@ class World:
             cb = getattr(h._callback, "__qualname__", repr(h._callback))
             if cb not in TIMER_KINDS:
                 continue
-            timers.append((round((h._when - T0) * TPS, 6), cb))
-        live = [x for x in asyncio.all_tasks(self.loop) if not x.done() and x not in self.base_tasks]
-        callers = set(self.tasks.values())
-        bg = [x for x in live if x not in callers]
-        bgnames = sorted(getattr(x.get_coro(), "__qualname__", "?") for x in bg)
-        idle = sum(len(v) for v in c._conns.values())
+            timers.append([round((h._when - T0) * TPS, 6), TIMER_KINDS[cb]])
+        bg = self.bg_tasks()
+        names = [(getattr(x.get_coro(), "__qualname__", "?"), x) for x in bg]
+        writers = [x for n, x in names if "_write_bytes" in n]
         return {
             "now": self.tick(),
-            "acquired": len(c._acquired),
-            "idle": idle,
-            "waiters": sum(len(v) for v in c._waiters.values()),
+            "acq": len(c._acquired),
+            "idle": sum(len(v) for v in c._conns.values()),
+            "wait": sum(len(v) for v in c._waiters.values()),
             "open": sum(1 for tr in self.transports if not tr.closed),
             "created": len(self.transports),
-            "writers": sum(1 for n in bgnames if "_write_bytes" in n),
-            "lookups": sum(1 for n in bgnames if "_resolve_host_with_throttle" in n),
-            "other_bg": [n for n in bgnames if "_write_bytes" not in n and "_resolve_host_with_throttle" not in n],
-            "dns_cached": int(("origin.test", 80) in c._cached_hosts),
+            "writers": len(writers),
+            "writer_owners": sorted(str(self.writer_owner(x)) for x in writers),
+            "lookup": sum(1 for n, _ in names if "_resolve_host_with_throttle" in n),
+            "other_bg": sorted(n for n, _ in names if "_write_bytes" not in n and "_resolve_host_with_throttle" not in n),
+            "cached": int(("origin.test", 80) in c._cached_hosts),
             "timers": sorted(timers),
-            "outcome": {str(t): list(v) for t, v in sorted(self.outcome.items())},
+            "out": {str(t): list(v) for t, v in sorted(self.outcome.items())},
             "live": sorted(t for t, task in self.tasks.items() if not task.done()),
-            "loop_exceptions": len(self.loop.exceptions),
+            "loop_exceptions": [str(x.get("message")) for x in self.loop.exceptions],
         }
 
     def close(self):
@@ -285,9 +375,15 @@ class World:
             for f in self.dns_futs:
                 if not f.done():
                     f.cancel()
+            self.iter_hook = None
             self.settle()
             self.loop.run_until_complete(self.session.close())
             self.settle()
+            left = [x for x in asyncio.all_tasks(self.loop) if not x.done()]
+            still_open = [tr for tr in self.transports if not tr.closed]
+            return {"tasks_left": [getattr(x.get_coro(), "__qualname__", "?") for x in left],
+                    "open_after_close": len(still_open),
+                    "loop_exceptions": [str(x.get("message")) for x in self.loop.exceptions]}
         finally:
             for p in reversed(self.patches):
                 p.stop()
@@ -310,11 +406,11 @@ def classify(e) -> str:
 
 # cut points of the response stream: head lines, chunk boundaries
 _HEAD_END = len(HEAD)
-_FULL = len(HEAD) + len(BODY)
+_FULL = len(FULL)
 
 
 def _body_marks():
-    """offsets (in the full stream) of: middle of chunk 1, middle of the big chunk 2, end"""
+    """(start of chunk-size line, start of chunk data, end of chunk data) in the full stream"""
     o = _HEAD_END
     marks = []
     for p in BODY_CHUNKS:
@@ -331,19 +427,715 @@ def next_cut(pos, kind):
     """Next offset to deliver up to, starting at pos."""
     if kind == "part":
         if pos < _HEAD_END:
-            # stay strictly inside the head: a few bytes, never completing it (mid-line)
-            return min(pos + 7, _HEAD_END - 3)
-        # inside the body: advance into the middle of the current chunk (mid-chunk), never completing the body
+            return min(pos + 7, _HEAD_END - 3)       # stays inside the head (mid-line)
         for (o, d0, d1) in _MARKS:
             if pos < d1 - 4:
-                return min(max(pos, d0) + 5, d1 - 4)
+                return min(max(pos, d0) + 5, d1 - 4)  # into the middle of the current chunk
         return pos
     if kind == "head":
         return _HEAD_END if pos < _HEAD_END else pos
     if kind == "big":
-        # deliver up to 10 bytes before the end of the big chunk (>= 2*READ_BUFSIZE new bytes)
         o, d0, d1 = _MARKS[1]
         return d1 - 10 if _HEAD_END <= pos < d0 else pos
     if kind == "end":
         return _FULL if pos >= _HEAD_END else pos
     raise ValueError(kind)
+
+
+# --------------------------------------------------------------------------------------------
+# model side
+
+def _o(x):
+    return "_" if x is None else str(int(x))
+
+
+def ev_word(st):
+    op = st[0]
+    if op == "adv":
+        return f"A.{st[1]}"
+    if op == "start":
+        c = st[2]
+        return "S.%d.%s.%s.%s.%s.%d.%d" % (st[1], _o(c.get("total")), _o(c.get("connect")), _o(c.get("sock_connect")),
+                                            _o(c.get("sock_read")), c.get("thr", 5 * TPS), 1 if c.get("block") else 0)
+    if op == "dns":
+        return "D"
+    if op == "conn":
+        return f"C.{st[1]}"
+    if op == "written":
+        return f"W.{st[1]}"
+    if op == "data":
+        return f"X.{st[1]}.{ {'part': 'p', 'head': 'h', 'big': 'b', 'end': 'e'}[st[2]] }"
+    if op == "read":
+        return f"R.{st[1]}"
+    if op == "cancel":
+        return f"K.{st[1]}"
+    raise ValueError(op)
+
+
+def model_line(case):
+    return "RUN %d %d %s" % (TPS, case["limit"], " ".join([f"A.{case.get('offset', 0)}"] + [ev_word(s) for s in case["history"]]))
+
+
+def parse_snap(txt, offset):
+    d = dict(kv.split("=", 1) for kv in txt.split())
+    tm = [] if d["timers"] == "-" else [[int(x.split(":")[0]) - offset, x.split(":")[1]] for x in d["timers"].split(",")]
+    out = {}
+    if d["out"] != "-":
+        for x in d["out"].split(","):
+            f = x.split(":")
+            out[f[0]] = [f[1]] if len(f) == 2 else [f[1], int(f[2]) - offset]
+    return {"now": int(d["now"]) - offset, "acq": int(d["acq"]), "idle": int(d["idle"]), "wait": int(d["wait"]),
+            "open": int(d["open"]), "created": int(d["created"]), "writers": int(d["writers"]), "lookup": int(d["lookup"]),
+            "cached": int(d["cached"]), "timers": sorted(tm), "out": out,
+            "live": [] if d["live"] == "-" else [int(x) for x in d["live"].split(",")], "pcs": d["pcs"]}
+
+
+def impl_canon(s, offset):
+    """The part of an implementation snapshot the model predicts (ticks relative to the history start)."""
+    out = {}
+    for t, (k, at) in s["out"].items():
+        out[t] = ["ok"] if k == "ok" else [k, at - offset]
+    return {"now": s["now"] - offset, "acq": s["acq"], "idle": s["idle"], "wait": s["wait"], "open": s["open"],
+            "created": s["created"], "writers": s["writers"], "lookup": s["lookup"], "cached": s["cached"],
+            "timers": sorted([int(round(a)) - offset if abs(a - round(a)) < 1e-9 else a - offset, k] for a, k in s["timers"]),
+            "out": out, "live": s["live"]}
+
+
+def diff_snap(m, i):
+    return [k for k in i if m.get(k) != i[k]]
+
+
+# --------------------------------------------------------------------------------------------
+# property oracle on the implementation (model-independent)
+
+def ceil_tick(x):
+    return int(math.ceil(x / TPS)) * TPS
+
+
+class Oracle:
+    """Evaluated after every stimulus on the implementation snapshot + harness-side bookkeeping."""
+
+    def __init__(self, w: World):
+        self.w = w
+        self.bound: dict = {}        # t -> (deadline tick, which) computed at the previous snapshot
+        self.problems: list = []
+
+    def applicable_bounds(self, t, snap):
+        """Deadlines by which request t must have failed if nothing more happens (documented rule: now+timeout,
+        rounded up to a whole second when the timeout is >= ceil_threshold)."""
+        w = self.w
+        cfg = w.cfg[t]
+        thr = cfg.get("thr", 5 * TPS)
+
+        def rule(start, T):
+            return ceil_tick(start + T) if T >= thr else start + T
+        out = []
+        has_conn = t in w.tr_of
+        in_body_idle = t in w.head_at and not w.gate[t].is_set()
+        if in_body_idle:
+            return out                                   # the caller is not awaiting aiohttp
+        T = w.eff_total.get(t)
+        if T:
+            out.append((rule(w.started_at[t], T), "total"))
+        if not has_conn:
+            if cfg.get("connect"):
+                out.append((rule(w.started_at[t], cfg["connect"]), "connect"))
+            if t in w.conn_futs and cfg.get("sock_connect"):
+                out.append((rule(w.sock_started[t], cfg["sock_connect"]), "sock_connect"))
+        else:
+            tr = w.tr_of[t]
+            writer_alive = str(t) in snap["writer_owners"]
+            if cfg.get("sock_read") and not writer_alive and tr.reading and t in w.last_io:
+                out.append((rule(w.last_io[t], cfg["sock_read"]), "sock_read"))
+        return out
+
+    def check(self, snap, st):
+        w, P = self.w, self.problems
+        now = snap["now"]
+        live = set(snap["live"])
+        # ---- bound: a request whose caller is awaiting must not outlive an applicable deadline
+        for t in sorted(live):
+            bs = self.applicable_bounds(t, snap)
+            if bs:
+                b = min(bs)
+                self.bound[t] = b
+                if now > b[0]:
+                    P.append(f"request {t} is still pending at tick {now}, after its {b[1]} bound (tick {b[0]})")
+            else:
+                self.bound.pop(t, None)
+        for t, (kind, at) in w.outcome.items():
+            t = int(t)
+            if getattr(self, "_seen", None) is None:
+                self._seen = set()
+            if t in self._seen:
+                continue
+            self._seen.add(t)
+            cfg = w.cfg[t]
+            if kind in TIMEOUT_KINDS:
+                b = self.bound.get(t)
+                if b is not None and at > b[0]:
+                    P.append(f"request {t} failed with {kind} at tick {at}, later than its {b[1]} bound (tick {b[0]})")
+                # ---- isolation: a timeout error needs a configured timeout of that kind that has elapsed
+                T = {"total_timeout": w.eff_total.get(t),
+                     "connect_timeout": min([x for x in (cfg.get("connect"), cfg.get("sock_connect")) if x] or [None]) if (cfg.get("connect") or cfg.get("sock_connect")) else None,
+                     "sock_read_timeout": cfg.get("sock_read")}[kind]
+                if not T:
+                    P.append(f"request {t} failed with {kind} although no such timeout is configured")
+                elif at < w.started_at[t] + T:
+                    P.append(f"request {t} failed with {kind} at tick {at}, before the timeout ({T} ticks from {w.started_at[t]}) could have elapsed")
+            elif kind == "cancelled":
+                if t not in w.cancelled:
+                    P.append(f"request {t} was cancelled although nobody cancelled it")
+            elif kind != "ok":
+                P.append(f"request {t} failed with {kind} (no peer error was injected)")
+            elif w.bodies.get(t) != PLAIN:
+                P.append(f"request {t} completed with a wrong body ({len(w.bodies.get(t) or b'')} bytes)")
+        # ---- residue
+        c = w.connector
+        for t, (kind, at) in w.outcome.items():
+            if kind == "ok":
+                continue
+            tr = w.tr_of.get(t)
+            # when the whole response had arrived before the failure the connection was released at EOF: reuse is fine
+            if tr is not None and w.sent.get(t, 0) < _FULL:
+                if any(p.transport is tr for dq in c._conns.values() for p, _ in dq):
+                    P.append(f"the connection of failed request {t} ({kind}) is back in the pool")
+                elif not tr.closed:
+                    P.append(f"the connection of failed request {t} ({kind}) is still open")
+                if any(getattr(p, "transport", None) is tr for p in c._acquired):
+                    P.append(f"the connection of failed request {t} ({kind}) still occupies a pool slot")
+            if str(t) in snap["writer_owners"]:
+                P.append(f"the body writer task of failed request {t} ({kind}) is still running")
+        if snap["acq"] > len(live):
+            P.append(f"{snap['acq']} pool slots occupied by {len(live)} pending requests")
+        if snap["wait"] > len(live):
+            P.append(f"{snap['wait']} queued waiters for {len(live)} pending requests")
+        if snap["writers"] > len(live):
+            P.append(f"{snap['writers']} writer tasks alive for {len(live)} pending requests")
+        if not live and snap["timers"]:
+            P.append(f"timers left armed with no pending request: {snap['timers']}")
+        if snap["other_bg"]:
+            P.append(f"unexpected background tasks: {snap['other_bg']}")
+        if snap["loop_exceptions"]:
+            P.append(f"event loop reported: {snap['loop_exceptions'][:2]}")
+
+    def finish(self):
+        """Cancel what is left, then a follow-up request on the same session must succeed."""
+        w, P = self.w, self.problems
+        try:
+            self._finish()
+        except BaseException:
+            w.close()
+            raise
+
+    def _finish(self):
+        w, P = self.w, self.problems
+        for t in list(w.tasks):
+            if not w.tasks[t].done():
+                w.apply(["cancel", t])
+                self.check(w.snapshot(), ["cancel", t])
+        f = 1000
+        cfg = {"total": 60 * TPS, "connect": None, "sock_connect": None, "sock_read": None, "thr": 5 * TPS}
+        w.apply(["start", f, cfg])
+        serve_all(w)
+        snap = w.snapshot()
+        if w.outcome.get(f, ("pending",))[0] != "ok":
+            P.append(f"follow-up request on the same session did not complete: {w.outcome.get(f)}; snapshot {brief(snap)}")
+        self.check(snap, ["follow-up"])
+        if snap["acq"] or snap["wait"] or snap["writers"] or snap["timers"]:
+            P.append(f"residue after all requests ended: {brief(snap)}")
+        if snap["open"] != snap["idle"]:
+            P.append(f"{snap['open']} transports open but {snap['idle']} pooled after all requests ended")
+        fin = w.close()
+        if fin["tasks_left"] or fin["open_after_close"] or fin["loop_exceptions"]:
+            P.append(f"after session.close(): {fin}")
+
+
+def serve_all(w, skip=()):
+    """Give every pending request (except `skip`) whatever it is waiting for until it completes."""
+    for _ in range(12):
+        live = [t for t, task in w.tasks.items() if not task.done() and t not in skip]
+        if not live:
+            return
+        if w.dns_futs:
+            w.apply(["dns"])
+        for t in live:
+            if t in w.conn_futs:
+                w.apply(["conn", t])
+            if w.wpaused.get(t):
+                w.apply(["written", t])
+            if t in w.tr_of and t not in w.head_at:
+                w.apply(["data", t, "head"])
+            if t in w.head_at and not w.gate[t].is_set():
+                w.apply(["read", t])
+            if t in w.head_at and w.gate[t].is_set():
+                w.apply(["data", t, "end"])
+
+
+def brief(s):
+    return {k: s[k] for k in ("now", "acq", "idle", "wait", "open", "writers", "lookup", "timers", "out", "live")}
+
+
+# --------------------------------------------------------------------------------------------
+# running one history on the implementation
+
+def run_impl(case, follow_up=True):
+    """-> (list of canonical snapshots, oracle problems)"""
+    w = World(limit=case["limit"], offset=case.get("offset", 0))
+    orc = Oracle(w)
+    snaps = []
+    closed = False
+    try:
+        for st in case["history"]:
+            w.apply(st)
+            s = w.snapshot()
+            orc.check(s, st)
+            snaps.append(impl_canon(s, w.offset))
+        if follow_up:
+            closed = True
+            orc.finish()
+    finally:
+        if not closed:
+            w.close()
+    return snaps, orc.problems
+
+
+# --------------------------------------------------------------------------------------------
+# history generator (looks at what the implementation can currently take)
+
+TIMEOUT_CHOICES = [None, None, 6, 20, 32, 78, 80, 82, 100, 130]
+
+
+def gen_cfg(rng):
+    thr = rng.choice([80, 80, 80, 32])
+    kind = rng.random()
+    cfg = {"total": None, "connect": None, "sock_connect": None, "sock_read": None, "thr": thr, "block": rng.random() < 0.25}
+    if kind < 0.15:
+        pass
+    elif kind < 0.75:
+        cfg[rng.choice(["total", "connect", "sock_connect", "sock_read"])] = rng.choice(TIMEOUT_CHOICES[2:])
+    else:
+        for k in ("total", "connect", "sock_connect", "sock_read"):
+            cfg[k] = rng.choice(TIMEOUT_CHOICES)
+    return cfg
+
+
+def gen_history(rng, nreq, limit, offset, steps):
+    """Drives a scratch World to know which stimuli make sense; returns the history."""
+    w = World(limit=limit, offset=offset)
+    hist = []
+    started = 0
+    parts: dict = {}
+    big: set = set()
+    try:
+        def do(st):
+            hist.append(st)
+            w.apply(st)
+        for _ in range(steps):
+            opts = []
+            live = [t for t, task in w.tasks.items() if not task.done()]
+            if started < nreq:
+                opts += [("start",)] * (3 if not live else 1)
+            if w.dns_futs:
+                opts += [("dns",)] * 2
+            for t in live:
+                if t in w.conn_futs:
+                    opts += [("conn", t)] * 2
+                tr = w.tr_of.get(t)
+                if tr is not None and not tr.closed and w.proto_of[t].exception() is not None:
+                    # a sock_read timeout is latched: the model excludes further peer data (see ASSUMPTIONS)
+                    if t in w.head_at and not w.gate[t].is_set():
+                        opts += [("read", t)] * 2
+                    if w.wpaused.get(t):
+                        opts.append(("written", t))
+                elif tr is not None and not tr.closed:
+                    if w.wpaused.get(t):
+                        opts.append(("written", t))
+                    if t not in w.head_at:
+                        if parts.get((t, "h"), 0) < 6:
+                            opts.append(("data", t, "part"))
+                        opts += [("data", t, "head")] * 2
+                    else:
+                        reading = w.gate[t].is_set()
+                        if not reading:
+                            opts += [("read", t)] * 2
+                        if tr.reading:
+                            lim = 3 if t not in big else 6
+                            if parts.get((t, "b"), 0) < lim:
+                                opts.append(("data", t, "part"))
+                            if t not in big and parts.get((t, "b"), 0) <= 3:
+                                opts.append(("data", t, "big"))
+                            if reading:
+                                opts += [("data", t, "end")] * 2
+                if rng.random() < 0.25:
+                    opts.append(("cancel", t))
+            opts += [("adv",)] * max(2, len(opts) // 3)
+            o = rng.choice(opts)
+            if o[0] == "start":
+                do(["start", started, gen_cfg(rng)])
+                started += 1
+            elif o[0] == "adv":
+                r = rng.random()
+                nt = [x for x, _ in w.snapshot()["timers"]]
+                now = w.tick()
+                if nt and r < 0.45:
+                    tgt = min(nt)
+                    d = max(0, int(round(tgt)) - now + rng.choice([-1, 0, 0, 1]))
+                elif r < 0.8:
+                    d = rng.choice([1, 1, 2, 3, 5, 8])
+                else:
+                    d = rng.choice([16, 33, 64, 160])
+                do(["adv", d])
+            elif o[0] == "data":
+                t, k = o[1], o[2]
+                if k == "part":
+                    key = (t, "h" if t not in w.head_at else "b")
+                    parts[key] = parts.get(key, 0) + 1
+                if k == "big":
+                    big.add(t)
+                do(["data", t, k])
+            else:
+                do(list(o))
+    finally:
+        w.close()
+    return hist
+
+
+# --------------------------------------------------------------------------------------------
+# suites
+
+def check_case(ctx, exe, case, suite):
+    """Run one history on model and implementation; returns the implementation's final snapshot."""
+    m_txt = fw.run_model(exe, [model_line(case)])[0]
+    return compare_case(ctx, case, suite, m_txt)
+
+
+def compare_case(ctx, case, suite, m_txt):
+    off = case.get("offset", 0)
+    snaps, problems = run_impl(case)
+    m_parts = m_txt.split(" | ")[1:] if m_txt is not None else []   # drop the snapshot of the leading offset advance
+    first_bad = None
+    for i, s in enumerate(snaps if m_txt is not None else []):
+        if i >= len(m_parts) or m_parts[i].startswith(("STUCK", "EXN", "BADREQ")):
+            first_bad = (i, m_parts[i] if i < len(m_parts) else "<missing>", s)
+            break
+        m = parse_snap(m_parts[i], off)
+        d = diff_snap(m, s)
+        if d:
+            first_bad = (i, {k: m[k] for k in d} | {"pcs": m["pcs"]}, {k: s[k] for k in d})
+            break
+    if first_bad is not None:
+        i, mo, io = first_bad
+        ctx.disagreement(suite, {"suite": suite, "limit": case["limit"], "offset": off,
+                                 "history": case["history"][: i + 1]}, mo, io)
+    ended = [v[0] for v in (snaps[-1]["out"].values() if snaps else [])]
+    nontrivial = any(k != "ok" for k in ended)
+    ctx.case((json.dumps(case, sort_keys=True), json.dumps(snaps[-1] if snaps else None, sort_keys=True)), nontrivial=nontrivial)
+    for k in ended:
+        ctx.count("outcome:" + k)
+    for st in case["history"]:
+        ctx.count("stimulus:" + st[0] + (":" + st[2] if st[0] == "data" else ""))
+    for p in problems[:3]:
+        ctx.violation(dict(case, suite=suite), p)
+    ctx.traces_validated += 1
+    return snaps, problems
+
+
+def suite_histories(ctx, exe):
+    rng = ctx.rng
+    cases = []
+    for path in sorted(glob.glob(os.path.join(fw.VERIF, "corpus", "C18", "*.json"))):
+        c = json.load(open(path))
+        c = c.get("case", c)
+        if c.get("suite", "histories") == "histories":
+            cases.append(c)
+    n = 1500 if ctx.quick else 30000
+    for _ in range(n):
+        limit = rng.choice([0, 0, 1, 1, 2])
+        nreq = rng.choice([1, 1, 2, 3, 4])
+        offset = rng.choice([0, 0, 2, 5, 8, 13, 15])
+        steps = rng.randint(6, 16 + 12 * nreq)
+        hist = gen_history(rng, nreq, limit, offset, steps)
+        cases.append({"suite": "histories", "limit": limit, "offset": offset, "history": hist})
+    lines = [model_line(c) for c in cases]
+    answers = fw.run_model(exe, lines) if exe is not None else [None] * len(cases)
+    ran = 0
+    for c, m_txt in zip(cases, answers):
+        compare_case(ctx, c, "histories", m_txt)
+        ran += 1
+        ctx.count(f"limit:{c['limit']}")
+        ctx.count(f"requests:{sum(1 for s in c['history'] if s[0] == 'start')}")
+    if cases:
+        ctx.sample({"suite": "histories", "case": cases[-1], "model": (answers[-1] or "<no model runner>")[:600]})
+    ctx.close_suite("histories", ran)
+
+
+def stall_case(offset_bytes, which, T, start_off, reuse):
+    """History: a complete first exchange (when reuse), then a request whose response stalls after offset_bytes."""
+    cfg = {"total": None, "connect": None, "sock_connect": None, "sock_read": None, "thr": 80, "block": False}
+    cfg[which] = T
+    h = []
+    t = 0
+    if reuse:
+        ok = {"total": 600, "connect": None, "sock_connect": None, "sock_read": None, "thr": 80, "block": False}
+        h += [["start", 0, ok], ["dns"], ["conn", 0], ["data", 0, "head"], ["read", 0], ["data", 0, "end"], ["adv", 3]]
+        t = 1
+    h += [["start", t, cfg]]
+    if not reuse:
+        h += [["adv", 1], ["dns"], ["adv", 1], ["conn", t]]
+    h += [["adv", 3]]
+    if offset_bytes > 0:
+        h += [["bytes", t, min(offset_bytes, _HEAD_END)]]
+    if offset_bytes >= _HEAD_END:
+        h += [["adv", 1], ["read", t], ["adv", 2]]
+        if offset_bytes > _HEAD_END:
+            h += [["bytes", t, offset_bytes]]
+    h += [["adv", 400]]
+    return {"suite": "stall_sweep", "limit": 1, "offset": start_off, "history": h, "victim": t, "which": which, "T": T}
+
+
+def run_stall(case):
+    """-> (observable, problems).  Expected failure time is recomputed here from the documented rule."""
+    w = World(limit=case["limit"], offset=case["offset"])
+    orc = Oracle(w)
+    t = case["victim"]
+    closed = False
+    try:
+        for st in case["history"]:
+            w.apply(st)
+            orc.check(w.snapshot(), st)
+        out = w.outcome.get(t)
+        thr, T, which = 80, case["T"], case["which"]
+        if which == "total":
+            exp = bound = ceil_tick(w.started_at[t] + T) if T >= thr else w.started_at[t] + T
+            kind = "total_timeout"
+        else:
+            exp = w.last_io[t] + T                       # call_later: not rounded
+            bound = ceil_tick(exp) if T >= thr else exp  # what the documentation allows
+            kind = "sock_read_timeout"
+        obs = {"outcome": list(out) if out else None, "expected": [kind, exp]}
+        if out is None:
+            orc.problems.append(f"request {t} never failed although the peer stalled and {which}={T} ticks is configured")
+        elif out[0] != kind or out[1] > bound:
+            orc.problems.append(f"request {t}: expected {kind} no later than tick {bound}, got {out}")
+        elif out[1] != exp:
+            obs["early"] = True
+        closed = True
+        orc.finish()
+        return obs, orc.problems
+    finally:
+        if not closed:
+            w.close()
+
+
+def suite_stall_sweep(ctx):
+    rng = ctx.rng
+    offs = list(range(0, _FULL))            # every byte offset; never the complete response
+    key = set([0, 1, _HEAD_END - 3, _HEAD_END - 1, _HEAD_END, _HEAD_END + 1, _HEAD_END + 4, _HEAD_END + 5, _MARKS[1][0],
+               _MARKS[1][1], _MARKS[1][1] + 1, _MARKS[1][2], _MARKS[1][2] + 1, _MARKS[2][1], _FULL - 5, _FULL - 1])
+    combos = [("sock_read", 20), ("total", 38), ("total", 90), ("sock_read", 96)]
+    ran = 0
+    obs = None
+    for o in offs:
+        if ctx.quick and o not in key:
+            todo = [combos[(o + ctx.seed) % 4]]
+        else:
+            todo = combos
+        for which, T in todo:
+            case = stall_case(o, which, T, rng.choice([0, 3, 8, 15]), reuse=(o % 3 == 1))
+            obs, problems = run_stall(case)
+            ran += 1
+            ctx.case((o, which, T, json.dumps(obs, sort_keys=True)), nontrivial=obs["outcome"] is not None and obs["outcome"][0] != "ok")
+            ctx.count("stall:" + ("head" if o < _HEAD_END else "body") + ":" + which)
+            if obs.get("early"):
+                ctx.disagreement("stall_sweep", case, f"failure exactly at {obs['expected']}", obs["outcome"])
+            for p in problems[:3]:
+                ctx.violation(case, p)
+    ctx.sample({"suite": "stall_sweep", "offsets": len(offs), "last": obs})
+    ctx.close_suite("stall_sweep", ran)
+
+
+CANCEL_BASES = [
+    # one request, every phase, body upload blocked for a while
+    {"limit": 0, "offset": 3, "victim": 0, "history": [
+        ["start", 0, {"total": 130, "connect": 100, "sock_connect": 40, "sock_read": 40, "thr": 80, "block": True}],
+        ["adv", 1], ["dns"], ["adv", 1], ["conn", 0], ["adv", 1], ["written", 0], ["adv", 1], ["data", 0, "part"],
+        ["data", 0, "head"], ["adv", 1], ["read", 0], ["data", 0, "part"], ["data", 0, "big"], ["adv", 1], ["data", 0, "end"]]},
+    # pool of one: holder 0, victim 1 queues, bystander 2 queues behind it; shared lookup started by 0
+    {"limit": 1, "offset": 0, "victim": 1, "history": [
+        ["start", 0, {"total": 200, "connect": None, "sock_connect": None, "sock_read": None, "thr": 80}],
+        ["start", 1, {"total": 200, "connect": 100, "sock_connect": None, "sock_read": 60, "thr": 80}],
+        ["start", 2, {"total": 200, "connect": None, "sock_connect": None, "sock_read": None, "thr": 80}],
+        ["adv", 1], ["dns"], ["conn", 0], ["data", 0, "head"], ["read", 0], ["adv", 1], ["data", 0, "end"],
+        ["adv", 1], ["data", 1, "head"], ["read", 1], ["data", 1, "end"], ["adv", 1],
+        ["data", 2, "head"], ["read", 2], ["data", 2, "end"]]},
+    # three requests share one in-flight lookup; the victim started it
+    {"limit": 0, "offset": 8, "victim": 0, "history": [
+        ["start", 0, {"total": 90, "connect": None, "sock_connect": None, "sock_read": None, "thr": 80}],
+        ["start", 1, {"total": 200, "connect": None, "sock_connect": None, "sock_read": None, "thr": 80}],
+        ["start", 2, {"total": 200, "connect": None, "sock_connect": None, "sock_read": None, "thr": 80}],
+        ["adv", 1], ["dns"], ["conn", 0], ["conn", 1], ["conn", 2], ["data", 0, "head"], ["data", 1, "head"], ["data", 2, "head"],
+        ["read", 0], ["read", 1], ["read", 2], ["data", 0, "end"], ["data", 1, "end"], ["data", 2, "end"]]},
+    # the victim joined a lookup started by somebody else, pool of two
+    {"limit": 2, "offset": 5, "victim": 1, "history": [
+        ["start", 0, {"total": 200, "connect": None, "sock_connect": None, "sock_read": None, "thr": 80}],
+        ["start", 1, {"total": 100, "connect": 64, "sock_connect": 32, "sock_read": 32, "thr": 80, "block": True}],
+        ["start", 2, {"total": 200, "connect": None, "sock_connect": None, "sock_read": None, "thr": 80}],
+        ["adv", 1], ["dns"], ["conn", 1], ["conn", 0], ["written", 1], ["data", 1, "head"], ["data", 0, "head"], ["read", 1],
+        ["data", 1, "big"], ["read", 0], ["data", 1, "end"], ["data", 0, "end"], ["conn", 2], ["data", 2, "head"],
+        ["read", 2], ["data", 2, "end"]]},
+]
+
+
+def run_cancel(base, k):
+    """Replay base, calling task.cancel() on the victim just before loop iteration k (counted from the first
+    stimulus).  -> (did the cancel land, observable, problems)"""
+    w = World(limit=base["limit"], offset=base["offset"])
+    orc = Oracle(w)
+    v = base["victim"]
+    landed = {"at": None}
+    start_iter = w.iterations
+
+    def hook(i):
+        if landed["at"] is None and i - start_iter >= k and v in w.tasks:
+            if not w.tasks[v].done():
+                landed["at"] = w.tick()
+                w.cancelled.add(v)
+                w.tasks[v].cancel()
+            else:
+                landed["at"] = -1
+    w.iter_hook = hook
+    closed = False
+    try:
+        for st in base["history"]:
+            w.apply(st)
+            orc.check(w.snapshot(), st)
+        total_iters = w.iterations - start_iter
+        w.iter_hook = None
+        serve_all(w, skip=(v,) if landed["at"] is None else ())
+        obs = {"victim": list(w.outcome.get(v, ("pending",))), "others": {str(t): w.outcome.get(t, ("pending",))[0] for t in w.tasks if t != v}}
+        # bystanders were served completely by the script: they must all have completed
+        for t in w.tasks:
+            if t != v and w.outcome.get(t, ("pending",))[0] != "ok":
+                orc.problems.append(f"bystander request {t} ended as {w.outcome.get(t)} after request {v} was cancelled at iteration {k}")
+        closed = True
+        orc.finish()
+        return landed["at"], total_iters, obs, orc.problems
+    finally:
+        if not closed:
+            w.close()
+
+
+def suite_cancel_sweep(ctx):
+    ran = 0
+    for bi, base in enumerate(CANCEL_BASES):
+        k = 0
+        while True:
+            at, total, obs, problems = run_cancel(base, k)
+            if at is None or at == -1:
+                break
+            ran += 1
+            ctx.case((bi, k, json.dumps(obs, sort_keys=True)), nontrivial=obs["victim"][0] == "cancelled")
+            ctx.count(f"cancel_sweep:base{bi}")
+            ctx.count("cancel_sweep:victim:" + obs["victim"][0])
+            for p in problems[:3]:
+                ctx.violation({"suite": "cancel_sweep", "base": bi, "k": k}, p)
+            k += 1
+        ctx.count(f"cancel_sweep:iterations:base{bi}", k)
+    ctx.sample({"suite": "cancel_sweep", "bases": len(CANCEL_BASES), "last": obs})
+    ctx.close_suite("cancel_sweep", ran)
+
+
+def suite_formulas(ctx, exe):
+    """The generated rounding formulas against the real helpers on a grid (function correspondence)."""
+    import aiohttp
+    from aiohttp import helpers
+    from harness.common.loop import VLoop
+    loop = VLoop()
+    asyncio.set_event_loop(loop)
+    try:
+        reqs, exp = [], []
+        grid_T = [1, 2, 15, 16, 17, 31, 32, 33, 79, 80, 81, 96, 100, 160]
+        for now in (0, 1, 7, 15, 16, 17, 100, 111):
+            for T in grid_T:
+                for thr in (32, 80):
+                    loop.vtime = T0 + now / TPS
+                    th = helpers.TimeoutHandle(loop, T / TPS, ceil_threshold=thr / TPS)
+                    h = th.start()
+                    reqs.append(f"WHEN total {TPS} {now} {T} {thr}")
+                    exp.append(str(round((h.when() - T0) * TPS)))
+                    h.cancel()
+
+                    async def ct():
+                        cm = helpers.ceil_timeout(T / TPS, thr / TPS)
+                        return cm.when()
+                    wh = loop.run_until_complete(ct())
+                    loop.vtime = T0 + now / TPS
+                    reqs.append(f"WHEN ctx {TPS} {now} {T} {thr}")
+                    exp.append(str(round((wh - T0) * TPS)))
+        for a in (None, 10, 80):
+            for b in (None, 0, 20, 100):
+                for c in (None, 30, 120):
+                    for d in (None, 5, 90):
+                        try:
+                            tm = aiohttp.ClientTimeout(total=a, connect=b, sock_read=c, sock_connect=d)
+                            e = "_" if tm.total is None else str(int(tm.total))
+                        except ValueError:
+                            continue
+                        reqs.append(f"EFF {_o(a)} {_o(b)} {_o(c)} {_o(d)}")
+                        exp.append(e)
+        for v, e_total, e_ctx, e_read in ((None, 0, 0, 0), (0, 0, 0, 0), (5, 1, 1, 1)):
+            th = helpers.TimeoutHandle(loop, v)
+            reqs += [f"EN total {_o(v)}", f"EN ctx {_o(v)}", f"EN read {_o(v)}"]
+
+            async def en():
+                return helpers.ceil_timeout(v).when() is not None
+            exp += [str(int(th.start() is not None)), str(int(loop.run_until_complete(en()))), str(int(bool(v)))]
+        got = fw.run_model(exe, reqs)
+        for r, g, e in zip(reqs, got, exp):
+            ctx.case((r, g), nontrivial=True)
+            if g != e:
+                ctx.disagreement("formulas", {"suite": "formulas", "request": r}, g, e)
+        ctx.sample({"suite": "formulas", "request": reqs[0], "model": got[0], "impl": exp[0]})
+        ctx.close_suite("formulas", len(reqs))
+    finally:
+        asyncio.set_event_loop(None)
+        loop.close()
+
+
+def run(ctx):
+    ok, exe = build_model()
+    ctx.oblige("model-runner-build", "correspondence", ok, "" if ok else exe)
+    if not ok:
+        # the translator or the model no longer builds: keep searching for a concrete failing input with the
+        # previously built runner (if any) and with the model-independent oracle
+        exe = os.path.join(fw.VERIF, "bin", "modelrun_C18")
+        if os.path.exists(exe):
+            ctx.notes.append("model runner not rebuilt; using the previously built bin/modelrun_C18 for the search")
+        else:
+            exe = None
+    if exe is not None:
+        suite_formulas(ctx, exe)
+    suite_histories(ctx, exe)
+    suite_stall_sweep(ctx)
+    suite_cancel_sweep(ctx)
+
+
+def replay(ctx, case):
+    suite = case.get("suite", "histories")
+    if suite == "histories":
+        ok, exe = build_model()
+        m_txt = fw.run_model(exe, [model_line(case)])[0] if ok else "<model build failed>"
+        snaps, problems = run_impl(case)
+        return {"violates": bool(problems), "why": problems[:5], "impl": snaps[-1] if snaps else None,
+                "model": m_txt.split(" | ")[-1]}
+    if suite == "stall_sweep":
+        obs, problems = run_stall(case)
+        return {"violates": bool(problems), "why": problems[:5], "impl": obs}
+    if suite == "cancel_sweep":
+        at, total, obs, problems = run_cancel(CANCEL_BASES[case["base"]], case["k"])
+        return {"violates": bool(problems), "why": problems[:5], "impl": obs, "cancel_landed_at_tick": at}
+    return {"violates": None, "note": "unknown suite"}
+
+
+SIGNATURES: dict = {}
